@@ -69,7 +69,9 @@ def run_case(tid, terms, strikes, cv_strikes, notional, df, spot_stats, cv_price
     from rpylib.product.underlying import Spot
     n, dim = len(terms), len(strikes)
     ys = [[max(s - k, 0) for s in terms] for k in strikes]
-    xs = [[[max(s - k, 0) for s in terms]] * dim for k in cv_strikes]          # xs[control][component][path]
+    def cvpay(s, k):      # k >= 0: call struck at k ; k < 0: put struck at -k
+        return max(s - k, 0) if k >= 0 else max(-k - s, 0)
+    xs = [[[cvpay(s, k) for s in terms]] * dim for k in cv_strikes]          # xs[control][component][path]
     hdr = {"kind": f"dim{dim}:cv{len(cv_strikes)}", "n": n, "dim": dim, "ys": ys, "xs": xs, "ncv": len(cv_strikes)}
     scale = notional * df
     ev = []
@@ -78,10 +80,10 @@ def run_case(tid, terms, strikes, cv_strikes, notional, df, spot_stats, cv_price
         product = Product(Spot(), payoff, maturity=1.0, notional=float(notional))
         cv = None
         if cv_strikes:
-            prods = [Product(Spot(), Vanilla(strike=float(k), payoff_type=PayoffType.CALL), maturity=1.0, notional=float(notional))
-                     for k in cv_strikes]
+            prods = [Product(Spot(), Vanilla(strike=float(abs(k)), payoff_type=PayoffType.CALL if k >= 0 else PayoffType.PUT),
+                             maturity=1.0, notional=float(notional)) for k in cv_strikes]
             # price of a control = its discounted sample mean (then the adjusted mean must equal the raw mean)
-            prices = [float(np.mean([max(s - k, 0) for s in terms]) * scale) for k in cv_strikes]
+            prices = [float(np.mean([cvpay(s, k) for s in terms]) * scale) for k in cv_strikes]
             cv = ControlVariates(prods, prices)
         conf = ConfigurationStandard(mc_paths=n, seed=3, control_variates=cv, activate_spot_statistics=spot_stats, nb_of_processes=1)
         proc = ScriptedProcess(terms, df)
@@ -118,6 +120,18 @@ def run_case(tid, terms, strikes, cv_strikes, notional, df, spot_stats, cv_price
             r["cvPriceN"] = [exact_int(p * n / scale, tol=1e-7) for p in price_cv]
             r["rawVarQ"] = [quantise((e / scale) ** 2, 1e-6) for e in err_raw]
             r["cvVarQ"] = [quantise((e / scale) ** 2, 1e-6) for e in err_cv]
+            if len(cv_strikes) == 2:
+                # exact adjusted samples for two controls: a_i * det * n, det = determinant of the n^2-scaled covariance
+                adj2 = []
+                for c in range(dim):
+                    x1 = np.array(xs[0][c], dtype=float)
+                    x2 = np.array(xs[1][c], dtype=float)
+                    c11 = n * float(np.sum(x1 * x1)) - float(np.sum(x1)) ** 2
+                    c22 = n * float(np.sum(x2 * x2)) - float(np.sum(x2)) ** 2
+                    c12 = n * float(np.sum(x1 * x2)) - float(np.sum(x1)) * float(np.sum(x2))
+                    det = c11 * c22 - c12 * c12
+                    adj2.append([exact_int(a / scale * det * n, tol=1e-6) if abs(det * n) < 2 ** 28 else 0 for a in adj[:, c]])
+                r["adj2N"] = adj2
             if len(cv_strikes) == 1:
                 adjN = []
                 for c in range(dim):
@@ -147,7 +161,8 @@ def main():
     for _ in range(10 if quick else 60):
         sets.append([rng.randint(0, 9) for _ in range(rng.randint(5, 12))])
     for terms in sets:
-        for (strikes, cvk) in (([0], []), ([1], [2]), ([0, 2], []), ([0, 2], [1]), ([1], [0, 3]), ([0, 1], [2, 4])):
+        for (strikes, cvk) in (([0], []), ([1], [2]), ([0, 2], []), ([0, 2], [1]), ([1], [0, 3]), ([0, 1], [2, 4]), ([1], [2, -4]),
+                               ([0, 3], [-3, 1])):
             if len(terms) < 2 and cvk:
                 continue
             notional, df = rng.choice([1, 2, 4]), rng.choice([1.0, 0.5, 0.25])
